@@ -112,6 +112,36 @@ def methods(impl_body):
     return res
 
 
+def methods_params(impl_body):
+    """name -> list of parameter names (without self) for every fn with a body."""
+    res = {}
+    for m in re.finditer(r"\bfn\s+(\w+)\s*(?:<[^>]*>)?\s*\(", impl_body):
+        depth, j = 0, m.end() - 1
+        while True:
+            if impl_body[j] == "(":
+                depth += 1
+            elif impl_body[j] == ")":
+                depth -= 1
+                if depth == 0:
+                    break
+            j += 1
+        ps = [p.strip() for p in split_top(impl_body[m.end():j], ",") if p.strip()]
+        ps = [p for p in ps if not re.match(r"&?\s*(mut\s+)?self\b", p)]
+        res[m.group(1)] = [re.match(r"(?:mut\s+)?(\w+)\s*:", p).group(1) for p in ps if re.match(r"(?:mut\s+)?(\w+)\s*:", p)]
+    return res
+
+
+def norm_arg(a):
+    """Argument of a collection call -> token: `Some(value.clone())` / `&value` -> `value` (`None` stays `None`),
+    `values.iter().cloned()` / `values.clone()` / `&values` -> `values`, `core::iter::empty()` -> `empty`."""
+    a = re.sub(r"\s+", "", a)
+    a = re.sub(r"\.(clone|iter|cloned|into_iter|copied)\(\)", "", a)
+    a = re.sub(r"^&(mut)?", "", a)
+    a = re.sub(r"^(core|std)::iter::empty\(\)$", "empty", a)
+    m = re.match(r"Some\((.*)\)$", a)
+    return m.group(1) if m else a
+
+
 def split_top(s, sep):
     parts, depth, cur = [], 0, []
     i = 0
@@ -428,6 +458,83 @@ def main():
         roots_mark.append("MARKER.mark(queue)")
     if re.search(r"context\.queue\.clear\(\)", hm["mark"][1]):
         roots_mark.append("queue.clear")
+    # every call of the marker entry point `mark_and_sweep_new` inside `impl Heap`, with the enclosing function and
+    # its parameters; and the calls among the collection routines (`allocate` -> `value_collection` …)
+    hparams = methods_params(heap_impl)
+    mark_sites, coll_calls = [], []
+    for name, (_, body) in hm.items():
+        for m in re.finditer(r"self\s*\.\s*mark_and_sweep_new\s*\(", body):
+            mark_sites.append((name, [norm_arg(a) for a in split_top(call_args(body, m.end() - 1), ",") if a.strip()]))
+        for m in re.finditer(r"self\s*\.\s*(value_collection|vector_collection|collection|verif_\w+)\s*\(", body):
+            coll_calls.append((name, m.group(1), [norm_arg(a) for a in split_top(call_args(body, m.end() - 1), ",") if a.strip()]))
+    mark_call = []
+    for m in re.finditer(r"self\s*\.\s*mark\s*\(", hm.get("mark_and_sweep_new", (None, ""))[1]):
+        mark_call.append([norm_arg(a) for a in split_top(call_args(hm["mark_and_sweep_new"][1], m.end() - 1), ",") if a.strip()])
+    if len(mark_call) != 1:
+        die("the call of Heap::mark in mark_and_sweep_new not found")
+    if "mark_and_sweep_new" not in hparams or len(mark_sites) < 2:
+        die("calls of Heap::mark_and_sweep_new not found")
+    heap_fns = sorted({n for n, _ in mark_sites} | {n for n, _, _ in coll_calls} | {c for _, c, _ in coll_calls} |
+                      {n for n in hparams if n.startswith("allocate") and "roots" in hparams[n]} | {"mark_and_sweep_new", "mark"})
+    for n in heap_fns:
+        if n not in hparams:
+            die("Heap::%s not found" % n)
+    # constants and shape of the growth / compaction policy (C19 heap_bounded is stated for these)
+    def const_val(name):
+        vals = set()
+        for m in re.finditer(r"const\s+%s\s*:\s*usize\s*=\s*([\d\s*_]+);" % name, closed):
+            v = 1
+            for f in m.group(1).replace("_", "").split("*"):
+                v *= int(f)
+            vals.add(v)
+        if len(vals) != 1:
+            die("constant %s: %s" % (name, sorted(vals)))
+        return vals.pop()
+    c_chunk, c_reset = const_val("EXTEND_CHUNK"), const_val("RESET_LIMIT")
+    inits = set(int(x) for x in re.findall(r"fn\s+new\s*\(\s*\)\s*->\s*Self\s*\{[^}]*?FreeList\s*\{.*?res\.grow_by\((\d+)\)", closed, re.S))
+    if len(inits) != 1:
+        die("FreeList::new: initial grow_by not found (%s)" % sorted(inits))
+    policy = []
+    flat = re.sub(r"\s+", "", closed)
+    fl_impl = [find_block(closed[m.start():], r"impl<T:[^{]*FreeList<T>\s*\{", "impl FreeList") for m in re.finditer(r"impl<T:[^{]*FreeList<T>\s*\{", closed)]
+    if not fl_impl:
+        die("impl FreeList not found")
+    def in_all(name, needle):
+        bodies = [re.sub(r"\s+", "", methods(b)[name][1]) for b in fl_impl if name in methods(b)]
+        return bool(bodies) and all(needle in b for b in bodies)
+    if in_all("grow_by", "letcurrent=self.elements.len().max(amount);") and in_all("grow_by", "self.alloc_count+=current;") and in_all("grow_by", "self.grow_count+=1;"):
+        policy.append("grow_by: adds max(len, amount) free slots, grow_count += 1")
+    grows = [re.sub(r"\s+", "", methods(b)["grow"][1]) for b in fl_impl if "grow" in methods(b)]
+    if grows and all("self.grow_by(Self::EXTEND_CHUNK)" in g or "letcurrent=self.elements.len().max(Self::EXTEND_CHUNK);" in g for g in grows):
+        policy.append("grow = grow_by(EXTEND_CHUNK)")
+    if in_all("compact", "self.elements.retain(|x|x.read().is_reachable());") and in_all("compact", "self.grow_count=0;") and in_all("compact", "self.extend_heap();"):
+        policy.append("compact: keep marked slots, grow_count = 0, extend")
+    if in_all("is_heap_full", "self.alloc_count==0"):
+        policy.append("is_heap_full = (alloc_count == 0)")
+    if in_all("percent_full", "letpercent=(count-self.alloc_countasf64)/count;"):
+        policy.append("percent_full = (len - alloc_count) / len")
+    for fn_name, lst in (("value_collection", "memory_free_list"), ("vector_collection", "vector_free_list"), ("allocate_vector_iter", "vector_free_list")):
+        b = re.sub(r"\s+", "", hm[fn_name][1]) if fn_name in hm else ""
+        if re.search(r"ifself\.%s\.grow_count>RESET_LIMIT\{self\.%s\.compact\(\);\}else\{self\.%s\.grow\(\);\}" % (lst, lst, lst), b):
+            policy.append("%s: after the mark, compact if grow_count > RESET_LIMIT else grow" % fn_name)
+        ths = set(re.findall(r"self\.%s\.percent_full\(\)>(0\.\d+)" % lst, b))
+        if fn_name == "value_collection":
+            ths_full = ths
+        else:
+            ths_full = ths - {"0.50", "0.30"}
+        if ths_full == {"0.95"}:
+            policy.append("%s: collects above 0.95" % fn_name)
+    # stop-the-world bracket of the mark phase
+    proto = []
+    mb = re.sub(r"\s+", "", hm["mark"][1])
+    order = [("stop_threads", "synchronizer.stop_threads()"), ("enumerate_stacks", "synchronizer.enumerate_stacks("),
+             ("push_roots", "context.push_back("), ("marker", "MARKER.mark(context.queue)")]
+    idx = [mb.find(n) for _, n in order]
+    if all(i >= 0 for i in idx) and idx == sorted(idx):
+        proto += [t for t, _ in order]
+    msn = re.sub(r"\s+", "", hm["mark_and_sweep_new"][1])
+    if 0 <= msn.find("self.mark(") < msn.find("synchronizer.resume_threads()"):
+        proto.append("resume_threads")
     sync_impl = find_block(vm, r"\nimpl\s+Synchronizer\s*\{", "impl Synchronizer")
     sm = methods(sync_impl)
     if "enumerate_stacks" not in sm:
@@ -447,7 +554,7 @@ def main():
         if re.search(r"a\.handler\{Some\(SteelVal::Closure\(c\)\)=>Some\(c\.as_ref\(\)\)", b):
             live_fn.append("frame.attachments.handler")
     # call sites of Heap::allocate*/collection: the root arguments
-    sites = []
+    sites, locks = [], []
     for rel in ("steel_vm/vm.rs", "steel_vm/primitives.rs", "steel_vm/vm/jit.rs"):
         src = strip(open(os.path.join(CORE, rel)).read())
         for m in re.finditer(r"\.(allocate|allocate_vector|allocate_vector_iter|collection)\s*\(", src):
@@ -456,6 +563,13 @@ def main():
             if len(args) < 5:
                 continue
             sites.append((rel + ":" + m.group(1), args))
+            # the receiver of the call and how it was obtained (heap mutex taken inside a safepoint?)
+            rm = re.search(r"(\w+)\s*$", src[:m.start()])
+            recv = rm.group(1) if rm else "?"
+            lets = list(re.finditer(r"let\s+(?:mut\s+)?%s\s*=\s*([^;]*);" % re.escape(recv), src[:m.start()]))
+            how = re.sub(r"\s+", "", lets[-1].group(1)) if lets else "?"
+            how = re.sub(r"^(self|ctx|this)\.thread\.", "thread.", how)
+            locks.append((rel + ":" + m.group(1), how))
     if len(sites) < 4:
         die("call sites of Heap::allocate*/collection not found")
 
@@ -483,9 +597,27 @@ def main():
         w("/-- What `live_functions` yields per frame. -/\ndef liveFunctions : List String := %s\n\n" % lean_list(live_fn))
         w("/-- Root arguments at every call of `Heap::allocate* / collection`. -/\n")
         w("def allocSites : List (String × List String) := %s\n\n" % lean_table(sites))
+        w("/-- Parameters of the collection routines of `impl Heap`. -/\n")
+        w("def heapFns : List (String × List String) := %s\n\n" % lean_table([(n, hparams[n]) for n in heap_fns]))
+        w("/-- Every call of `mark_and_sweep_new`: enclosing function ↦ arguments. -/\n")
+        w("def markSites : List (String × List String) := %s\n\n" % lean_table(mark_sites))
+        w("/-- The arguments `mark_and_sweep_new` hands to `Heap::mark`. -/\ndef markCall : List String := %s\n\n" % lean_list(mark_call[0]))
+        w("/-- Functions of the verification hook (`verif_*`, cfg steel_verif) among them. -/\n")
+        w("def hookFns : List String := %s\n\n" % lean_list([n for n in heap_fns if n.startswith("verif_")]))
+        w("/-- Calls among the collection routines: caller ↦ callee :: arguments. -/\n")
+        w("def collCalls : List (String × List String) := %s\n\n" % lean_table([(a, [b] + c) for a, b, c in coll_calls]))
+        w("/-- How the receiver of every `Heap::allocate* / collection` call was obtained (heap mutex, inside a safepoint). -/\n")
+        w("def allocLocks : List (String × String) := %s\n\n" % lean_table([(a, [b]) for a, b in locks]).replace('["', '"').replace('"]', '"'))
+        w("/-- Order of events in `Heap::mark` / `mark_and_sweep_new`. -/\ndef markProtocol : List String := %s\n\n" % lean_list(proto))
+        w("/-- Constants of the growth / compaction policy (`EXTEND_CHUNK` of both `impl FreeList`, `RESET_LIMIT`, the\n`grow_by` of `FreeList::new`) and the recognised statements of the policy. -/\n")
+        w("def srcExtendChunk : Nat := %d\ndef srcResetLimit : Nat := %d\ndef srcInitialSlots : Nat := %d\n" % (c_chunk, c_reset, inits.pop()))
+        w("def srcPolicy : List String := %s\n\n" % lean_list(policy))
         w("end SteelVerif.C04.Gen\n")
     print("variants=%d pointer=%d leafA=%d leafB=%d visitA=%d visitB=%d rootsMark=%s rootsEnumerate=%s live=%s sites=%d" % (
         len(variants), len(pointer), len(leafA), len(leafB), len(edgesA), len(edgesB), roots_mark, roots_enum, live_fn, len(sites)))
+    print(" constants: EXTEND_CHUNK=%d RESET_LIMIT=%d policy=%s protocol=%s locks=%s" % (c_chunk, c_reset, policy, proto, sorted(set(h for _, h in locks))))
+    print(" markSites = %s" % mark_sites)
+    print(" collCalls = %s" % coll_calls)
     for k in ("visit_continuation", "visit_closure", "visit_custom_type"):
         print(" A.%s = %s" % (k, edgesA.get(k)))
         print(" B.%s = %s" % (k, edgesB.get(k)))
